@@ -25,6 +25,18 @@ ENTRIES = {
   text="Lean theorems about the cache logic of a point isotherm (hand-written model of the rebuild condition of loading_at / pressure_at / spreading_pressure_at): a query returns what an interpolator built for exactly the requested (branch, kind, fill) returns whatever was cached; hence, by induction over histories, the outcome of any modelled query after ANY sequence of queries equals its outcome on a fresh object; a cached interpolator is only used under an equal key. Purity and history independence of everything else (exports, 18 characterisation / fitting / IAST entry points, the shared thermodynamic state, module-level kernel and reference-curve caches) is established on real objects: every call is compared with the same call on a fresh object and every argument is snapshotted before and after.",
   note=TB + "Partial: only the interpolator-cache logic is modelled and proved; that the characterisation / fitting / IAST routines and the CoolProp state handling neither write to their arguments nor depend on history is OBSERVED on seeded sequences plus targeted pairs (cache keys differing in one component) and triples (thermodynamic accessors at two temperatures), not proved. S7, S8 fixed.",
   technique="Lean 4 proof (cache transparency by induction over query histories) + differential execution against fresh objects with deep snapshots"),
+ "C05": dict(
+  text="Lean theorems about the canonical form the identifier is computed from (hand-written model of to_dict + hashgen): it is a function of the content only (route, row labels, dtypes, process are not inputs); invariant under the order in which metadata was given (distinct keys), key-sorted; injective: different metadata value / label / datum / branch mark / model parameter give a different canonical form, hence a different identifier unless the uninterpreted hash collides. On real objects: 11 construction routes incl. a second process with another PYTHONHASHSEED give one identifier, reads never change it, every single-field edit changes it; equal ids <=> equal canonical forms (correspondence).",
+  note=TB + "Partial: md5 and pandas.util.hash_pandas_object are an uninterpreted injective H; that the implementation's hash input is a function of the modelled content only is established by correspondence, not proof. S9 fixed; S10b-id known (re-guessed branch marks after a JSON parse).",
+  technique="Lean 4 proof (canonical form: permutation invariance + injectivity) + differential execution over construction routes and single-field edits"),
+ "C06": dict(
+  text="Lean theorems about the JSON codec model (run against the very documents the library writes, both directions, 0 disagreements): decode(encode i) = i for metadata-only and model isotherms and for point isotherms with at least one desorption point; for all-adsorption data the round trip holds IF AND ONLY IF branch guessing on the pressures returns all-adsorption (the necessary hypothesis is finding S10b, witness proved); empty data boundary; re-export reproduces the document; document keys distinct. Full round trips on real objects (string and file) over the JSON-value grammar, all unit configurations, all 16 models.",
+  note=TB + "Partial: python json, pandas from_dict/to_dict and the Lean JSON parser of the driver are residue. S10a, S10c fixed; S10b known.",
+  technique="Lean 4 proof (decode∘encode = id on a decidable domain, iff-characterisation of the branch-mark clause) + correspondence on real documents + full round trips"),
+ "C07": dict(
+  text="Lean theorems about pyGAPS's own text codec (model agrees with cast_string on >500 grammar-directed strings): complete decision table of cast_string in Python's order (exactly one class per string), in-domain text / booleans / None / every non-negative integer round-trip, negative integers provably become floats (S18), CSV line codec accepted-iff characterisation and round trip, a value containing the separator is refused. The decidable domain predicate of the theorems is the one the harness uses to draw in-domain metadata for full round trips in CSV, Excel and AIF x three classes x unit configurations x data shapes.",
+  note=TB + "Partial: gemmi.cif, xlrd/xlwt, pandas.read_csv/to_csv are exercised only by the round trips; digits of non-ASCII scripts are outside the model alphabet. 20 known findings S18-* (values outside a format's domain silently changed or refused with a non-pyGAPS error; Excel ints -> floats; AIF regroups interleaved branch marks); AIF/CSV/Excel defects fixed (b2dd618, 3fb886c, 355f79c, 2b7914b).",
+  technique="Lean 4 proof (text codec decision table and round trips) + model/implementation correspondence on strings + full format round trips"),
  "C10": dict(
   text="Lean theorems over the reals about the functions regenerated from modelling/*.py on every run (tie lemmas Gen = published equation, then per model: pressure(loading p) = p and converse, zero point incl. the 0/0 point of the quadratic inverses, sign, strict monotonicity on the validity range, saturation bound, Henry limit; injectivity of the pressure-explicit models as the specification of the numerical inverses). Float copies of the same generated text are run against the Python originals; the property oracle runs on the real classes.",
   note=TB + "Partial where the truth is numerical: scipy.optimize inverses (TSLangmuir, Temkin, Jensen-Seaton, Virial, VST) are specified by residual and checked only where the library reports success; IEEE rounding per the tolerance table. BET/GAB inverse needs N != C (C != 1). Known finding S24 (Virial.loading returns a non-root with success); S1 fixed.",
